@@ -139,6 +139,15 @@ fn gen_case(ch: &mut Ch, degenerate: bool) -> PlanCase {
             vec![Op::Setup(0), Op::SolveTimed { us: t_us.max(5_000) }, Op::Setup(1), Op::SolveTimed { us: t2 }]
         };
     }
+    if !degenerate && ch.prob(0.12) {
+        // a step that is minute next to the distances in the space (or zero): any loop that
+        // covers a distance step by step without looking at the clock runs for minutes
+        c.step = match ch.weighted(&[5.0, 1.0]) {
+            0 => d.max(lvs) * ch.log_range(1e-7, 1e-4),
+            _ => 0.0,
+        };
+        c.radius = c.radius.max(c.step);
+    }
     if degenerate {
         // degenerate resolution: fraction 0 / negative / -0.0 on every component
         let f = ch.pick(&[0.0, -1.0, -0.0, -1e-300]);
@@ -277,7 +286,7 @@ impl Prop for C06 {
     type Case = PlanCase;
     const ID: &'static str = "C06";
     const PART: &'static str = "timed-runs";
-    const RULE: &'static str = "proptest-generated planner cases run under real wall-clock limits T in {0, 1, 5, 20, 50} ms (PRM build time in {0, 1, 5, 20} ms), no iteration budget: feasible worlds and four infeasible families (goal sealed by a closed shell of thickness >= 1.1 L, goal region entirely invalid, start sealed in, and a feasible query followed by setup() with a checker whose world seals the goal) x 4 planners x 6 kinds x parameters x seeds; 10% degenerate resolutions (longest-valid-segment fraction 0 / negative / -0.0, then solve(100 ms)). Oracle: elapsed <= T + 1 s for solve and construct_roadmap (an overshoot must repeat in 3 more runs of the same case to count), Ok(path) on an infeasible world is a violation, and a call that does not return within the 20 s watchdog is a violation ('blocks indefinitely'). Non-trivial = infeasible world, a deadline that actually fired (Err(Timeout)), or a degenerate resolution.";
+    const RULE: &'static str = "proptest-generated planner cases run under real wall-clock limits T in {0, 1, 5, 20, 50} ms (PRM build time in {0, 1, 5, 20} ms), no iteration budget: feasible worlds and four infeasible families (goal sealed by a closed shell of thickness >= 1.1 L, goal region entirely invalid, start sealed in, and a feasible query followed by setup() with a checker whose world seals the goal) x 4 planners x 6 kinds x parameters x seeds; 10% degenerate resolutions (longest-valid-segment fraction 0 / negative / -0.0, then solve(100 ms)); 12% minute steps (1e-7..1e-4 of the start-goal distance, or 0). Oracle: elapsed <= T + 1 s for solve and construct_roadmap (an overshoot must repeat in 3 more runs of the same case to count), Ok(path) on an infeasible world is a violation, and a call that does not return within the 20 s watchdog is a violation ('blocks indefinitely'). Non-trivial = infeasible world, a deadline that actually fired (Err(Timeout)), or a degenerate resolution.";
     const HANG_IS_VIOLATION: bool = true;
     const WATCHDOG_S: u64 = 20;
     const MAX_SHRINK_ITERS: u32 = 100;
